@@ -117,7 +117,7 @@ Fixpoint entry_nodes (ips : list ipkey) (family port : Z) (acc : list ai_node) :
   | [] => acc
   | ip :: rest =>
     if (family =? LEG_AF_UNSPEC) || (family =? fst ip)
-    then entry_nodes rest family port (acc ++ [mkNode (fst ip) (snd ip) port (to_int 0)])
+    then entry_nodes rest family port (acc ++ [mkNode (fst ip) (snd ip) port (ttl_to_int 0)])
     else entry_nodes rest family port acc                                 (* ares_dns_pton fails *)
   end.
 
@@ -144,22 +144,28 @@ Definition has_flag (flags f : Z) : bool := negb (Z.land flags f =? 0).
 Definition is_digit_dot (c : Z) : bool := ((48 <=? c) && (c <=? 57)) || (c =? 46).
 Definition count_dots (s : str) : nat := length (filter (fun c => c =? 46) s).
 
-(* fake_addrinfo: [pton4]/[pton6] are ares_inet_pton(AF_INET/AF_INET6, name) *)
-Definition fake_addrinfo (name : str) (family port flags : Z) (pton4 pton6 : option bin) : option addrinfo :=
+(* fake_addrinfo: [pton4]/[pton6] are ares_inet_pton(AF_INET/AF_INET6, name).
+   With fixes/C13-gai-literal-family.patch: a dotted-quad literal for an AF_INET6 request ends
+   the request with ARES_ENOTFOUND. *)
+Inductive fake_result := FNone | FAddr (ai : addrinfo) | FFail (st : Z).
+
+Definition fake_addrinfo (name : str) (family port flags : Z) (pton4 pton6 : option bin) : fake_result :=
   let r4 :=
       if (family =? LEG_AF_INET) || (family =? LEG_AF_INET6) || (family =? LEG_AF_UNSPEC) then
         if forallb is_digit_dot name && Nat.eqb (count_dots name) 3 then pton4 else None
       else None in
-  let r :=
-      match r4 with
-      | Some a => Some (mkNode LEG_AF_INET a port (to_int 0))
-      | None => if (family =? LEG_AF_INET6) || (family =? LEG_AF_UNSPEC)
-                then match pton6 with Some a => Some (mkNode LEG_AF_INET6 a port (to_int 0)) | None => None end
-                else None
-      end in
-  match r with
-  | None => None
-  | Some nd => Some (mkAI None [nd] (if has_flag flags AI_CANONNAME then [mkCname 0 None (Some name)] else []))
+  let cn := if has_flag flags AI_CANONNAME then [mkCname 0 None (Some name)] else [] in
+  match r4 with
+  | Some a =>
+    if family =? LEG_AF_INET6 then FFail ARES_ENOTFOUND
+    else FAddr (mkAI None [mkNode LEG_AF_INET a port (ttl_to_int 0)] cn)
+  | None =>
+    if (family =? LEG_AF_INET6) || (family =? LEG_AF_UNSPEC)
+    then match pton6 with
+         | Some a => FAddr (mkAI None [mkNode LEG_AF_INET6 a port (ttl_to_int 0)] cn)
+         | None => FNone
+         end
+    else FNone
   end.
 
 Definition dot_localhost : str := [46; 108; 111; 99; 97; 108; 104; 111; 115; 116].
@@ -288,8 +294,9 @@ Definition getaddrinfo (hf : hfile) (lookups : list lk) (name : str) (family : Z
   | None => Ok (ARES_ESERVICE, None)
   | Some port =>
     match fake_addrinfo name family port flags pton4 pton6 with
-    | Some ai => Ok (ARES_SUCCESS, Some ai)
-    | None =>
+    | FAddr ai => Ok (ARES_SUCCESS, Some ai)
+    | FFail st => Ok (st, None)
+    | FNone =>
       (* ares_search_name_list (property C12) may reject the name *)
       if negb (names_status =? ARES_SUCCESS) then Ok (names_status, None) else
       do x <- next_lookup hf name family port flags lookups rounds ai_empty 0 ARES_ECONNREFUSED;
